@@ -143,8 +143,59 @@ func genC04(t *rapid.T) kit.History {
 
 // genC04Full adds, to some histories, a final "cascade burst": one transaction that creates a run of adjacent
 // cascade-wired referrers of one target and then deletes that target.
+// c04Case is a history plus, for some cases, ids given as raw bytes (they need not be valid UTF-8; as byte slices they
+// survive the JSON replay file) and the choice of wiring for the sibling-child-stores scenario.
+type c04Case struct {
+	kit.History
+	BinIDs          [][]byte `json:"binIds,omitempty"`
+	SiblingsCascade bool     `json:"siblingsCascade,omitempty"`
+}
+
+var c04BinPool = [][]byte{{0xff, 0xfe}, []byte("a\xc3("), {0x80}, []byte("t\xffx"), {0xf0, 0x28, 0x8c, 0x28}, []byte("caf\xe9"), {0xc0, 0xaf}}
+
+func genC04Case(t *rapid.T) c04Case {
+	c := c04Case{History: genC04Full(t), SiblingsCascade: rapid.Bool().Draw(t, "siblingsCascade")}
+	if rapid.IntRange(0, 2).Draw(t, "binaryIds") == 0 {
+		seen := map[string]bool{}
+		for i, n := 0, rapid.IntRange(1, 2).Draw(t, "nBinIds"); i < n; i++ {
+			var id []byte
+			if rapid.Bool().Draw(t, fmt.Sprintf("bin%d_pool", i)) {
+				id = c04BinPool[rapid.IntRange(0, len(c04BinPool)-1).Draw(t, fmt.Sprintf("bin%d_pick", i))]
+			} else {
+				id = rapid.SliceOfN(rapid.Byte(), 1, 6).Draw(t, fmt.Sprintf("bin%d_bytes", i))
+			}
+			if !seen[string(id)] {
+				seen[string(id)] = true
+				c.BinIDs = append(c.BinIDs, id)
+			}
+		}
+	}
+	return c
+}
+
 func genC04Full(t *rapid.T) kit.History {
 	h := genC04(t)
+	if rapid.IntRange(0, 7).Draw(t, "deepChain") == 0 {
+		// a chain of twenty nodes in the self-referencing cascade store, then the delete of its head (or of a node
+		// near the head): the cascade nests once per level
+		m := replayModel(h)
+		for i := 0; i < 20; i++ {
+			if _, exists := m.Ents["tree"][fmt.Sprintf("c%02d", i)]; exists {
+				return h
+			}
+		}
+		tx := kit.TxSpec{}
+		for i := 0; i < 20; i++ {
+			var parent *string
+			if i > 0 {
+				parent = kit.Sp(fmt.Sprintf("c%02d", i-1))
+			}
+			tx.Ops = append(tx.Ops, kit.Op{Kind: "create", Store: "tree", ID: fmt.Sprintf("c%02d", i), Spec: &kit.EntSpec{Name: "n", Ref: parent}})
+		}
+		h.Txs = append(h.Txs, tx)
+		h.Txs = append(h.Txs, kit.TxSpec{Ops: []kit.Op{{Kind: "delete", Store: "tree", ID: []string{"c00", "c01", "c02"}[rapid.IntRange(0, 2).Draw(t, "deepVictim")]}}})
+		return h
+	}
 	if rapid.IntRange(0, 5).Draw(t, "staleTarget") == 0 {
 		// one transaction: reference a target, drop the reference, delete the target, reference it again.
 		// The last step must be refused (the target no longer exists) and with it the whole transaction.
@@ -249,7 +300,8 @@ func genC04Full(t *rapid.T) kit.History {
 	return h
 }
 
-func runC04(h kit.History) kit.Result {
+func runC04(c c04Case) kit.Result {
+	h := c.History
 	res := kit.Result{Sub: len(h.Txs)}
 	var deleteReferenced, reparent, hostileDelete, cascade, restrict, childTarget bool
 	st, err := kit.RunHistory(h, func(w *kit.World, m *kit.Model, i int, tx kit.TxSpec, out kit.TxOutcome) error {
@@ -297,6 +349,38 @@ func runC04(h kit.History) kit.Result {
 		}
 	}
 	res.Err = err
+	if res.Err == nil && len(c.BinIDs) > 0 {
+		var ids []string
+		for _, b := range c.BinIDs {
+			ids = append(ids, string(b))
+		}
+		if _, berr := kit.RunHistory(c04BinaryHistory(c04Cfg, ids), nil); berr != nil {
+			res.Err = fmt.Errorf("targets whose ids are the byte strings %q: %v", ids, berr)
+		}
+		res.Classes = append(res.Classes, "ids-of-arbitrary-bytes")
+	}
+	if res.Err == nil {
+		// the sibling-child-stores scenario runs with the first target ids of the history (or two plain ones)
+		var owners []string
+		seen := map[string]bool{}
+		for _, tx := range h.Txs {
+			for _, op := range tx.Ops {
+				if (op.Store == "targets" || op.Store == "kt") && op.Kind == "create" && !seen[op.ID] && len(owners) < 2 {
+					seen[op.ID] = true
+					owners = append(owners, op.ID)
+				}
+			}
+		}
+		for _, b := range c.BinIDs {
+			if !seen[string(b)] {
+				owners = append(owners, string(b))
+			}
+		}
+		if len(owners) == 0 {
+			owners = []string{"o1", "o2"}
+		}
+		res.Err = c04Siblings(owners, c.SiblingsCascade)
+	}
 	res.NonTrivial = deleteReferenced || reparent || hostileDelete
 	for name, on := range map[string]bool{"delete-of-referenced-target": deleteReferenced, "re-parenting-update": reparent, "delete-with-hostile-id": hostileDelete,
 		"cascade-wiring-involved": cascade, "delete-of-target-referenced-through-child-store": childTarget, "restrict-wiring-involved": restrict, "reject-then-commit": st.RejectThenCommit} {
@@ -309,7 +393,7 @@ func runC04(h kit.History) kit.Result {
 }
 
 func TestC04(t *testing.T) {
-	kit.Execute(t, kit.Spec[kit.History]{
+	kit.Execute(t, kit.Spec[c04Case]{
 		ID:    "C04",
 		Level: "exploration",
 		Rule: "rapid draws histories (1-20 transactions of 1-3 create / update / patch / delete operations) over a target store and six referrer stores, one per wiring (nullable fk index, non-null fk index, fk constraint + cascade none, fk constraint + cascade delete, cascade-delete fk index, self-referencing nullable fk index), with 2-4 ids per history drawn from a universe mixing plain ids with ids containing quotes, backslashes, filter keywords, blanks, brackets, newlines, tabs and a control byte. " +
@@ -318,7 +402,7 @@ func TestC04(t *testing.T) {
 			"Non-trivial history: a delete of a referenced target (either outcome), a re-parenting update, or a delete involving a hostile id. Distinct by hash of the history JSON.",
 		Assumptions: []string{"expected error classes are checked only through the exported Is* helpers; error texts are never compared",
 			"an entity referencing itself through a cascade wiring and cascade cycles are skipped as unspecified"},
-		Gen: genC04Full, Run: runC04,
+		Gen: genC04Case, Run: runC04,
 		QuickChecks: 1000, ThoroughFactor: 10,
 	})
 }
